@@ -12,6 +12,7 @@ import (
 	"fmt"
 	"math/rand"
 	"sort"
+	"sync/atomic"
 	"time"
 
 	"github.com/pion/interceptor/pkg/jitterbuffer"
@@ -30,6 +31,11 @@ type opJ struct {
 	A int64  `json:"a,omitempty"`
 	B int64  `json:"b,omitempty"`
 	C int64  `json:"c,omitempty"`
+	// compressed operations of the long sets (long.go): repeat count and the strides of a push run
+	N int64 `json:"n,omitempty"`
+	D int64 `json:"d,omitempty"`
+	E int64 `json:"e,omitempty"`
+	F int64 `json:"f,omitempty"`
 }
 
 type outJ struct {
@@ -52,7 +58,7 @@ type pqCase struct {
 }
 
 var (
-	hangs int
+	hangs atomic.Int64 // calls that ran into the watchdog (long cases run concurrently)
 	fails []cq.ImplFailure
 )
 
@@ -86,7 +92,7 @@ func guarded(f func() outJ) outJ {
 	case o := <-done:
 		return o
 	case <-time.After(watchdog):
-		hangs++
+		hangs.Add(1)
 
 		return outJ{K: "hang"}
 	}
@@ -123,6 +129,7 @@ type jbRunner struct {
 	ev   []int64
 	c    jbCase
 	dead bool
+	long bool // long.go: the caller records (compressed) operations and outcomes itself
 }
 
 func newJB(min int64) *jbRunner {
@@ -184,6 +191,9 @@ func (r *jbRunner) do(o opJ) outJ {
 		res.Ev = nil
 	} else {
 		res.Ev = append([]int64{}, r.ev...)
+	}
+	if r.long {
+		return res
 	}
 	r.c.Ops = append(r.c.Ops, o)
 	r.c.Outs = append(r.c.Outs, res)
@@ -312,6 +322,7 @@ type pqRunner struct {
 	ids  idmap
 	c    pqCase
 	dead bool
+	long bool
 }
 
 func newPQ() *pqRunner { return &pqRunner{q: jitterbuffer.NewQueue(), ids: idmap{}} }
@@ -346,6 +357,9 @@ func (r *pqRunner) do(o opJ) outJ {
 	})
 	if res.K == "hang" || res.K == "panic" {
 		r.dead = true
+	}
+	if r.long {
+		return res
 	}
 	r.c.Ops = append(r.c.Ops, o)
 	r.c.Outs = append(r.c.Outs, res)
@@ -472,13 +486,30 @@ func (s *shadow) remove(sq int64) {
 
 var mins = []int64{0, 1, 2, 3, 5, 8, 50}
 
+// minimum-start counts around and above the buffer's overflow length (100): playback must not start before
+// the configured count whatever its relation to the other thresholds of the buffer. (Counts up to 65535 are
+// in the long sets, long.go.)
+var bigMins = []int64{51, 64, 99, 100, 101, 102, 120, 128, 150, 200, 255, 256, 300}
+
 func genJB(rnd *rand.Rand) (jbCase, map[string]bool) { //nolint:gocyclo,cyclop
 	b := map[string]bool{}
 	min := mins[rnd.Intn(len(mins))]
 	if rnd.Intn(4) != 0 && min == 50 {
 		min = mins[rnd.Intn(len(mins)-1)]
 	}
-	b[fmt.Sprintf("min=%d", min)] = true
+	big := rnd.Intn(25) == 0
+	if big {
+		min = bigMins[rnd.Intn(len(bigMins))]
+		if rnd.Intn(4) == 0 {
+			min = 51 + int64(rnd.Intn(250))
+		}
+		b["min>50"] = true
+		if min > 100 {
+			b["min>overflow-length"] = true
+		}
+	} else {
+		b[fmt.Sprintf("min=%d", min)] = true
+	}
 	r := newJB(min)
 	sh := &shadow{}
 	nops := 8 + rnd.Intn(60)
@@ -501,6 +532,11 @@ func genJB(rnd *rand.Rand) (jbCase, map[string]bool) { //nolint:gocyclo,cyclop
 		tsBase = (1 << 32) - 3000
 	}
 	pushy := 40 + rnd.Intn(40) // percentage of pushes
+	if big {
+		// enough pushes to get past the minimum, with pops, peeks and clears on the way and a playing phase after
+		pushy = 60 + rnd.Intn(14)
+		nops = int(min)*100/pushy + 30 + rnd.Intn(80)
+	}
 	longAfterReset := false
 	for i := 0; i < nops && !r.dead; i++ {
 		k := rnd.Intn(100)
@@ -598,6 +634,9 @@ func genJB(rnd *rand.Rand) (jbCase, map[string]bool) { //nolint:gocyclo,cyclop
 				b[o.K+"-ok"] = true
 			case "err":
 				b[fmt.Sprintf("%s-err%d", o.K, res.A)] = true
+				if res.A == 4 && len(sh.buf) > 100 {
+					b["refused-above-overflow-length"] = true
+				}
 			}
 		case "peek", "peekseq":
 			if sh.clear {
@@ -665,12 +704,35 @@ func main() {
 		Name: "c18ri", Import: "IV.Check.C18bCheck", CaseType: "ri_case",
 		Checks: []string{"ri_mismatches", "ri_spec_failures"},
 	}
-	sets := []*cq.Set{jbs, pqs, ris}
+	// long histories (long.go): a handful of cases, each worth seconds of evaluation inside Coq, spread over
+	// several sets so that they are evaluated in parallel; listed first so that they are started first
+	nLongSets := o.Scale(3, 8)
+	jbls := make([]*cq.Set, nLongSets)
+	for i := range jbls {
+		jbls[i] = &cq.Set{
+			Name: fmt.Sprintf("c18jbl%d", i), Import: "IV.Check.C18dCheck", CaseType: "jbl_case",
+			Checks: []string{"jbl_mismatches", "jbl_spec_failures"},
+		}
+	}
+	pqls := &cq.Set{
+		Name: "c18pql", Import: "IV.Check.C18dCheck", CaseType: "pql_case",
+		Checks: []string{"pql_mismatches", "pql_spec_failures"},
+	}
+	sets := append(append([]*cq.Set{}, jbls...), pqls, ris, jbs, pqs)
+	nLong := 0
+	addLong := func(c cq.Case) {
+		jbls[nLong%len(jbls)].Cases = append(jbls[nLong%len(jbls)].Cases, c)
+		nLong++
+	}
 	isPQ := func(ops []opJ) bool { return len(ops) > 0 && ops[0].K[0] == 'q' }
 	if o.Replay != "" {
 		var c anyCase
 		cq.LoadReplay(o.Replay, &c)
-		if len(c.Ins) > 0 {
+		if len(c.Lops) > 0 && isPQ(c.Lops) {
+			pqls.Cases = append(pqls.Cases, replayPQL(pqlCase{Lops: c.Lops}).toCase(map[string]bool{"replay": true}))
+		} else if len(c.Lops) > 0 {
+			addLong(replayJBL(jblCase{Min: c.Min, Lops: c.Lops}).toCase(map[string]bool{"replay": true}))
+		} else if len(c.Ins) > 0 {
 			ris.Cases = append(ris.Cases, replayRI(c.Ins).toCase(map[string]bool{"replay": true}))
 		} else if isPQ(c.Ops) {
 			pqs.Cases = append(pqs.Cases, replayPQ(pqCase{Ops: c.Ops}).toCase(map[string]bool{"replay": true}))
@@ -684,6 +746,15 @@ func main() {
 	for _, f := range o.CorpusFiles() {
 		var c anyCase
 		cq.LoadReplay(f, &c)
+		if len(c.Lops) > 0 {
+			if isPQ(c.Lops) {
+				pqls.Cases = append(pqls.Cases, replayPQL(pqlCase{Lops: c.Lops}).toCase(map[string]bool{"corpus": true}))
+			} else {
+				addLong(replayJBL(jblCase{Min: c.Min, Lops: c.Lops}).toCase(map[string]bool{"corpus": true}))
+			}
+
+			continue
+		}
 		if len(c.Ins) > 0 {
 			ris.Cases = append(ris.Cases, replayRI(c.Ins).toCase(map[string]bool{"corpus": true}))
 
@@ -698,34 +769,82 @@ func main() {
 			jbs.Cases = append(jbs.Cases, replayJB(c.jbCase).toCase(map[string]bool{"corpus": true}))
 		}
 	}
+	// the long cases are independent objects: they run concurrently with the rest of the generation, each with
+	// a PRNG of its own seeded from the run PRNG (the case list is a function of -seed only)
+	type longJob struct {
+		seed    int64
+		script  *jblCase
+		pq      bool
+		jc      jblCase
+		pc      pqlCase
+		b       map[string]bool
+		pending chan struct{}
+	}
+	var longJobs []*longJob
+	for _, c := range scriptedJBL() {
+		c := c
+		longJobs = append(longJobs, &longJob{script: &c})
+	}
+	for i, n := 0, o.Scale(3, 40); i < n; i++ {
+		longJobs = append(longJobs, &longJob{seed: rnd.Int63()})
+	}
+	for i, n := 0, o.Scale(3, 20); i < n; i++ {
+		longJobs = append(longJobs, &longJob{seed: rnd.Int63(), pq: true})
+	}
+	thorough := o.Tier == "thorough"
+	sem := make(chan struct{}, 6)
+	for _, j := range longJobs {
+		j := j
+		j.pending = make(chan struct{})
+		go func() {
+			sem <- struct{}{}
+			defer func() { <-sem; close(j.pending) }()
+			switch {
+			case j.script != nil:
+				j.jc, j.b = replayJBL(*j.script), map[string]bool{"scripted": true}
+			case j.pq:
+				j.pc, j.b = genPQL(rand.New(rand.NewSource(j.seed)), thorough) //nolint:gosec
+			default:
+				j.jc, j.b = genJBL(rand.New(rand.NewSource(j.seed)), thorough) //nolint:gosec
+			}
+		}()
+	}
 	for _, c := range scripted() {
-		if hangs >= maxHangs {
+		if hangs.Load() >= maxHangs {
 			break
 		}
 		jbs.Cases = append(jbs.Cases, replayJB(c).toCase(map[string]bool{"scripted": true}))
 	}
 	n := o.Scale(1500, 40000)
-	for i := 0; i < n && hangs < maxHangs; i++ {
+	for i := 0; i < n && hangs.Load() < maxHangs; i++ {
 		c, b := genJB(rnd)
 		jbs.Cases = append(jbs.Cases, c.toCase(b))
 	}
 	npq := o.Scale(600, 20000)
-	for i := 0; i < npq && hangs < maxHangs; i++ {
+	for i := 0; i < npq && hangs.Load() < maxHangs; i++ {
 		c, b := genPQ(rnd)
 		pqs.Cases = append(pqs.Cases, c.toCase(b))
 	}
 	for _, ins := range scriptedRI() {
-		if hangs >= maxHangs {
+		if hangs.Load() >= maxHangs {
 			break
 		}
 		ris.Cases = append(ris.Cases, replayRI(ins).toCase(map[string]bool{"scripted": true}))
 	}
 	nri := o.Scale(400, 4000)
-	for i := 0; i < nri && hangs < maxHangs; i++ {
+	for i := 0; i < nri && hangs.Load() < maxHangs; i++ {
 		c, b := genRI(rnd)
 		ris.Cases = append(ris.Cases, c.toCase(b))
 	}
-	extra := map[string]interface{}{"hangs_observed": hangs, "watchdog": watchdog.String()}
+	for _, j := range longJobs {
+		<-j.pending
+		if j.pq {
+			pqls.Cases = append(pqls.Cases, j.pc.toCase(j.b))
+		} else {
+			addLong(j.jc.toCase(j.b))
+		}
+	}
+	extra := map[string]interface{}{"hangs_observed": hangs.Load(), "watchdog": watchdog.String()}
 	cq.Write(o, "jb: histories of 8..120 public-API calls (push in order/loss/late/duplicates of head, tail, any; all pops, peeks, "+
 		"SetPlayoutHead, Clear) for minimum start counts {0,1,2,3,5,8,50}; distinct by content; non-trivial = at least two pushes "+
 		"and one packet returned; pq: 5..54 direct PriorityQueue calls with priorities drawn from a window of 3..14 values "+
